@@ -174,9 +174,19 @@ def eval_case(ctx, case):
     try:
         if front_end == "sphinx":
             # the same arrangement through the Sphinx front end (MyST replaces Sphinx' unreferenced-footnote detector)
-            b = drive.SphinxBuild({"index.md": text}, conf={k: v for k, v in kw.items()} | {"keep_warnings": True}, builder="dummy")
+            conf = {k: v for k, v in kw.items()} | {"keep_warnings": True}
+            first = dict(conf)
+            flip = case.get("reconf")
+            if flip:
+                # the project is first built with other footnote settings, then conf.py is edited and the project built again (sources untouched)
+                for k in flip:
+                    first[k] = not conf[k]
+            b = drive.SphinxBuild({"index.md": text}, conf=first, builder="dummy")
             try:
                 b.build()
+                if flip:
+                    b.rebuild({}, conf=conf)
+                    ctx.count("sphinx_reconfigured_builds")
                 doc = b.doctree("index").deepcopy()
                 wtext = "\n".join("index.md:0: (WARNING/2) " + r["msg"].replace("\n", " ") for r in b.stream_records())  # the stream: what the user sees
             finally:
@@ -332,6 +342,8 @@ def run_shard(ctx):
     for i in range(ns):
         case = make_case(R)
         case["front_end"] = "sphinx"
+        if i % 2 == 1 and case["via"] == "global":
+            case["reconf"] = R.choice([["myst_footnote_sort"], ["myst_footnote_transition"], ["myst_footnote_sort", "myst_footnote_transition"]])
         nt = eval_case(ctx, case)
         ctx.case(repr(case), bool(nt))
         if i == 0:
